@@ -621,13 +621,13 @@ MC_QUICK = [  # (cfg, expectation: None = holds, else the property that must hav
     ("MC_Mmp_DevNonAtomic.cfg", "MutualExclusion", "DevNonAtomic"),
     ("MC_Mmp_DevStopUnconditional.cfg", "NoFalseClean", None),
     ("MC_Mmp_DevNoSecondWait.cfg", "MutualExclusion", None),
-    ("MC_Mmp_DevNoFsckMarker.cfg", "MutualExclusion", None),
-    ("MC_Mmp_DevDumpClobbers_NFC.cfg", "NoFalseClean", None),      # debugfs.c before fixes/X01_dump_mmp_private_buf.patch
     ("MC_Mmp_progress.cfg", None, None),
-    ("MC_Mmp_stale.cfg", None, None),
     ("MC_Mmp_stale_fsck.cfg", "StaleHolderRecoverable", "StaleFsckNeedsClear"),
 ]
 MC_THOROUGH = MC_QUICK + [
+    ("MC_Mmp_DevNoFsckMarker.cfg", "MutualExclusion", None),
+    ("MC_Mmp_DevDumpClobbers_NFC.cfg", "NoFalseClean", None),      # debugfs.c before fixes/X01_dump_mmp_private_buf.patch
+    ("MC_Mmp_stale.cfg", None, None),
     ("MC_Mmp.cfg", None, None),
     ("MC_Mmp_literal.cfg", None, None),
     ("MC_Mmp_DevNonAtomic_NFC.cfg", "NoFalseClean", "DevNonAtomic"),
@@ -635,7 +635,6 @@ MC_THOROUGH = MC_QUICK + [
     ("MC_Mmp_DevSeqCollision.cfg", None, None),
     ("MC_Mmp_DevDumpClobbers.cfg", "DetectableOverlap", None),
     ("MC_Mmp_n3.cfg", None, None),
-    ("MC_Mmp_n3_literal.cfg", None, None),
 ]
 
 
@@ -644,7 +643,7 @@ def model_check(ev, tier):
     jobs = MC_QUICK if tier == "quick" else MC_THOROUGH
     def one(j):
         cfg, expect, key = j
-        big = cfg in ("MC_Mmp_n3.cfg", "MC_Mmp_n3_literal.cfg", "MC_Mmp_literal.cfg", "MC_Mmp.cfg")
+        big = cfg in ("MC_Mmp_n3.cfg", "MC_Mmp_literal.cfg", "MC_Mmp.cfg")
         return j, T.tlc(os.path.join(SPEC, "Mmp.tla"), os.path.join(SPEC, cfg), workers=(4 if big else 2),
                         timeout=(2400 if big else 600), xmx=("6g" if big else "3g"))
     findings = {}
@@ -852,8 +851,8 @@ def _run(tier, ev, vd, work, rng):
     sim_over = "{%d}" % polls[("fsck", 0)]
 
     # (2) schedules from TLC
-    nsim = 400 if tier == "quick" else 3000
-    want = 40 if tier == "quick" else 260
+    nsim = 300 if tier == "quick" else 3000
+    want = 30 if tier == "quick" else 260
     scheds = []           # (cfg of origin, schedule)
     sim_cfgs = [("Sim_Mmp_atomic.cfg", "Trace_Mmp_atomic.cfg"), ("Sim_Mmp_literal.cfg", "Trace_Mmp.cfg")]
     if tier != "quick":
@@ -911,7 +910,7 @@ def _run(tier, ev, vd, work, rng):
     ev.cov["replay_divergences"] = ndiv
 
     # (3) schedules drawn by the check (code -> spec only)
-    nrand = 40 if tier == "quick" else 400
+    nrand = 30 if tier == "quick" else 400
     allk = ["rw", "rw", "rwd", "fsck", "ro", "fsckn", "skip", "peek", "clear"]
     base_alt = None
     for i in range(nrand):
